@@ -683,6 +683,10 @@ func C13(c *core.Ctx) {
 					c13req{Kind: "find", A: head + "=" + strings.Join(keys[:len(keys)-1], ","), Desc: "fewer key components than the list has keys"})
 			}
 		}
+		// an empty step anywhere but at the end, surplus key components: refused, not read as a shorter path
+		for _, p := range []string{"/two", "/w=full", "w=full//c", "w=full/c//y", "//", "two=p,1,9", "w=full,x", "c/in=1,true,2", "two=p,1/three=x1,y1,1,1"} {
+			reqs = append(reqs, c13req{Kind: "jfind2", A: p, Desc: "empty step or surplus key component", Must: "error"})
+		}
 		for _, p := range []string{"two", "two=p,1", "two=p", "two=", "two=p,1,9", "two=,", "two=,1", "two=p,", "two=p,x", "two=p,1/three=x1,y1,1", "two=p,1/three=x1,y1",
 			"two=p,1/three=x1", "two=p,1/three=", "two=p,1/three=x1,y1,1,1", "two=p,1/three=,,", "two=p,1/three=x1,,1", "two=p,2/three=x1,y1,1", "c/in=1,true", "c/in=1", "c/in=,false",
 			"c/in=1,maybe", "c/in=x,true", "two=p,1/v", "two=p/v", "two?where=a%3D'p'", "two=p,1/three?where=z>1", "two?fc.range=!1-2", "two=q,1/three=x"} {
